@@ -101,7 +101,7 @@ def _analyze(o, excludes, post, T, tpath, workdir, tag):
         return "error", msgs, None, stats
     cex = chfix.COUNTEREXAMPLES[-1] if chfix.COUNTEREXAMPLES else None
     if cex is not None:
-        cex = {k: (bool(v) if isinstance(v, bool) else int(v)) for k, v in cex.items()}
+        cex = {k: (bool(v) if isinstance(v, bool) else (str(v) if isinstance(v, str) else int(v))) for k, v in cex.items()}
     return "refuted", msgs, cex, stats
 
 
@@ -135,6 +135,18 @@ def run(module, prop, oid, T=None, tpath=None, excludes=()):
     o = REGISTRY[(prop, oid)]
     T = float(T or o.T)
     tpath = float(tpath or o.tpath or max(10.0, T / 5))
+    if o.engine == "direct":
+        w0 = time.time()
+        r = o.fn()
+        out = {"prop": prop, "oid": oid, "T": T, "excludes": [], "domain_size": None, "twin": r.get("twin", "reached"),
+               "witness": r.get("witness"), "diverged": [],
+               "stats": {"paths": r.get("queries", 0), "confirmed_paths": r.get("unsat", 0), "cpu_s": round(time.time() - w0, 2),
+                         "smt_queries": r.get("queries", 0), "smt_unsat": r.get("unsat", 0), "smt_unknown": r.get("unknown", 0),
+                         "smt_time_s": round(r.get("solver_s", 0.0), 2)},
+               "messages": r.get("messages", []), "verdict": r["verdict"], "wall_s": round(time.time() - w0, 2)}
+        if r["verdict"] == "violation":
+            out["cex"] = {"args": r.get("cex", {}), "engine": r.get("messages", [])[:2], "replay": {"diag": r.get("diag", "violation")}}
+        return out
     excludes = list(excludes)
     workdir = tempfile.mkdtemp(prefix="chx_")
     sys.path.insert(0, workdir)
